@@ -3,12 +3,12 @@ package props
 
 import (
 	"bufio"
-	"os/exec"
 	"crypto/sha256"
 	"encoding/hex"
 	"encoding/json"
 	"fmt"
 	"os"
+	"os/exec"
 	"path/filepath"
 	"sort"
 	"strings"
@@ -42,6 +42,9 @@ type Check struct {
 	// Guards: notes that must be > 0 and minimal number of distinct outcomes.
 	RequireNotes []string
 	MinOutcomes  int
+	// Aux, if set, runs once in the parent process after everything else (auxiliary passes
+	// that are not the deciding enumeration, e.g. the free-running race-detector pass).
+	Aux func(rc *RunCtx, rep *Report)
 	// Sharded: Custom is run in NShards worker processes (scheduler worlds are process-global);
 	// each worker handles the work items i with i % NShards == Shard.
 	Sharded bool
@@ -62,20 +65,22 @@ type RunCtx struct {
 
 // Report accumulates what a run covered.
 type Report struct {
-	Executions  int64
-	Skipped     int64
-	Nontrivial  map[string]struct{}
-	Outcomes    map[string]int64
-	Notes       map[string]int64
-	Samples     []any
-	Violations  []Found
-	Exhaustive  bool
-	Bounds      map[string]int
-	States      int64
-	Transitions int64
-	TracesImpl  int64
-	Extra       map[string]any
-	Broken      []string // harness errors (exit 2)
+	Executions int64
+	Skipped    int64
+	Nontrivial map[string]struct{}
+	// nontrivialHashed: hashed keys from the xplor scenarios (counted together with Nontrivial)
+	nontrivialHashed map[uint64]struct{}
+	Outcomes         map[string]int64
+	Notes            map[string]int64
+	Samples          []any
+	Violations       []Found
+	Exhaustive       bool
+	Bounds           map[string]int
+	States           int64
+	Transitions      int64
+	TracesImpl       int64
+	Extra            map[string]any
+	Broken           []string // harness errors (exit 2)
 }
 
 // Found is a violation with its scenario.
@@ -212,7 +217,7 @@ func writeReplay(prop, tier string, f Found) string {
 // RunCheck executes a check and returns the process exit code.
 func RunCheck(c *Check, rc *RunCtx) int {
 	start := time.Now()
-	rep := &Report{Nontrivial: map[string]struct{}{}, Outcomes: map[string]int64{}, Notes: map[string]int64{},
+	rep := &Report{Nontrivial: map[string]struct{}{}, nontrivialHashed: map[uint64]struct{}{}, Outcomes: map[string]int64{}, Notes: map[string]int64{},
 		Exhaustive: true, Bounds: map[string]int{}, Extra: map[string]any{}}
 	for _, s := range c.Scenarios {
 		if rc.Only != "" && rc.Only != s.Name {
@@ -232,7 +237,7 @@ func RunCheck(c *Check, rc *RunCtx) int {
 		rep.Skipped += res.Skipped
 		rep.Bounds[s.Name] = bound
 		for k := range res.Nontrivial {
-			rep.Nontrivial[s.Name+"/"+k] = struct{}{}
+			rep.nontrivialHashed[k^xplor.HashKey(s.Name)] = struct{}{}
 		}
 		for k, v := range res.Outcomes {
 			rep.Outcomes[k] += v
@@ -261,6 +266,9 @@ func RunCheck(c *Check, rc *RunCtx) int {
 		default:
 			c.Custom(rc, rep)
 		}
+	}
+	if c.Aux != nil && rc.Partial == "" && rc.Only == "" {
+		c.Aux(rc, rep)
 	}
 	if rc.Partial != "" {
 		b, _ := json.Marshal(rep)
@@ -323,8 +331,8 @@ func finish(c *Check, rc *RunCtx, rep *Report, start time.Time) int {
 		if c.MinOutcomes > 0 && len(rep.Outcomes) < c.MinOutcomes {
 			rep.Broken = append(rep.Broken, fmt.Sprintf("vacuity guard: only %d distinct outcomes (< %d)", len(rep.Outcomes), c.MinOutcomes))
 		}
-		if len(rep.Nontrivial) < 2 {
-			rep.Broken = append(rep.Broken, fmt.Sprintf("vacuity guard: only %d distinct non-trivial cases", len(rep.Nontrivial)))
+		if rep.nNontrivial() < 2 {
+			rep.Broken = append(rep.Broken, fmt.Sprintf("vacuity guard: only %d distinct non-trivial cases", rep.nNontrivial()))
 		}
 	}
 	wall := time.Since(start).Seconds()
@@ -342,7 +350,7 @@ func finish(c *Check, rc *RunCtx, rep *Report, start time.Time) int {
 	}
 	cov := map[string]any{
 		"evaluations":         rep.Executions,
-		"distinct_nontrivial": len(rep.Nontrivial),
+		"distinct_nontrivial": rep.nNontrivial(),
 		"rule":                c.Rule,
 		"samples":             samples,
 		"exhaustive":          rep.Exhaustive && len(rep.Broken) == 0,
@@ -391,7 +399,7 @@ func finish(c *Check, rc *RunCtx, rep *Report, start time.Time) int {
 		}
 	}
 	fmt.Printf("%s %s: executions=%d distinct_nontrivial=%d outcomes=%d exhaustive=%v wall=%.1fs\n",
-		c.ID, rc.Tier, rep.Executions, len(rep.Nontrivial), len(rep.Outcomes), rep.Exhaustive, wall)
+		c.ID, rc.Tier, rep.Executions, rep.nNontrivial(), len(rep.Outcomes), rep.Exhaustive, wall)
 	var kkeys []*knownFinding
 	for k := range knownHits {
 		kkeys = append(kkeys, k)
@@ -625,3 +633,5 @@ func runShards(c *Check, rc *RunCtx, rep *Report) {
 		}
 	}
 }
+
+func (r *Report) nNontrivial() int { return len(r.Nontrivial) + len(r.nontrivialHashed) }
